@@ -45,9 +45,9 @@ def vvalid (fam : Fam) (cap : Nat) (s : St) (t : Bool) : VOp → Bool
   | .eraseAt pos => fam == .sv && pos < s.sz t
   | .eraseRange f l => fam == .sv && f ≤ l && l ≤ s.sz t
   | .clear => true
-  | .resize sz | .resizev sz _ => fam == .sv && sz ≤ cap
-  | .assignn cnt _ => fam == .sv && cnt ≤ cap
-  | .assignr xs => fam == .sv && xs.length ≤ cap
+  | .resize sz | .resizev sz _ | .ctorN sz => fam == .sv && sz ≤ cap
+  | .assignn cnt _ | .ctorNV cnt _ => fam == .sv && cnt ≤ cap
+  | .assignr xs | .ctorR xs => fam == .sv && xs.length ≤ cap
   | .eraseIf md _ => fam == .sv && 0 < md && specified s.mem (baseOf cap t) (s.sz t)
   | .cctor | .mctor => true
   | .cassign | .massign | .cassignSelf | .swap | .swapSelf => fam == .sv
@@ -64,6 +64,7 @@ def svalid (fam : SFam) (cap : Nat) (s : St) (t : Bool) : SOp → Bool
   | .eraseAt pos => pos < s.sz t
   | .eraseRange f l => f ≤ l && l ≤ s.sz t
   | .extract => fam == .fs
+  | .replace xs => fam == .fs && xs.length ≤ cap
   | _ => true
 
 inductive SReach (fam : SFam) (k : Kind) (cap : Nat) : St → Prop where
@@ -90,11 +91,10 @@ def varSpecified (trk : Nat → Bool) (m : Mem) (sl ix : Nat) : Bool :=
   !trk ix || (match m.slots[sl]? with | some (.live _ (some _)) => true | _ => false)
 
 def xvalid (trk : Nat → Bool) (nalt : Nat) (s : St) (t : Bool) : XOp → Bool
-  | .emplace j _ | .emplaceCopy j _ | .emplaceMove j _ => j < nalt
+  | .emplace j _ | .emplaceCopy j _ | .emplaceMove j _ | .assignCopy j _ | .assignMove j _ => j < nalt
   | .optAssignCopy _ | .optAssignMove _ => 1 < nalt
   | .reset => 0 < nalt
   | .use => varSpecified trk s.mem (baseOf 1 t) (s.sz t)
-  | .assignOwn => false   -- excluded: known finding F-C03-variant-assign-own-alternative
   | _ => true
 
 inductive XReach (k : Kind) (trk : Nat → Bool) (nalt : Nat) : St → Prop where
